@@ -1,4 +1,5 @@
 """Exact semantics of the SIMD integer/shuffle/move subset (legacy SSE and VEX forms).  Returns True when handled, None otherwise."""
+import re
 from z3 import (BitVecVal, BoolVal, And, Or, Not, If, Concat, Extract, ZeroExt, SignExt, LShR, ULT, ULE, UGT, UGE, simplify, is_bv_value)
 from vlib.asmx.engine import Unsupported, bv, simp, conc, fresh, AESENC, AESENCLAST, AESDEC, AESDECLAST, AESIMC, SBOX32, CLMUL
 
@@ -44,7 +45,7 @@ def execute(E, st, ins):
             return None     # destination havoc'd by the caller
     if any(x.mask is not None or x.bcast for x in o):
         return avx512(E, st, ins)
-    if m.startswith(('k', 'vshuf', 'vextract', 'vinsert', 'vbroadcast', 'valign', 'vpternlog')) and m not in (
+    if m.startswith(('k', 'vshuf', 'vextract', 'vinsert', 'vbroadcast', 'valign', 'vpternlog', 'vpcmp', 'vperm')) and m not in (
             'vinserti128', 'vinsertf128', 'vextracti128', 'vextractf128', 'vbroadcasti128', 'vbroadcastf128', 'vbroadcastss', 'vbroadcastsd') \
             and not (m.startswith('vshuf') and m in ('vshufps', 'vshufpd')):
         r = evex_unmasked(E, st, ins)
@@ -406,6 +407,32 @@ def avx512(E, st, ins):
                 if (mk >> i) & 1:
                     E.store(st, simp(a + i * eb), eb, src[i], ins)
             return True
+    # any other masked register-destination form: compute the unmasked result, then merge / zero per element with the concrete mask
+    d = o[0]
+    if d.kind == 'vec' and d.mask is not None and len(o) >= 2 and m not in EVEX_MOVES:
+        ew = {'b': 8, 'w': 16, 'd': 32, 'q': 64}.get(m[-1])
+        if m.endswith('ps'):
+            ew = 32
+        if m.endswith('pd'):
+            ew = 64
+        if ew is None:
+            return None
+        W = d.width
+        mk = kmask(st, d, W // ew)
+        old = Extract(W - 1, 0, st.v[d.reg])
+        km, kz = d.mask, d.zeroing
+        d.mask, d.zeroing = None, False
+        try:
+            r = execute(E, st, ins)
+        finally:
+            d.mask, d.zeroing = km, kz
+        if r is None:
+            return None
+        new = lanes(Extract(W - 1, 0, st.v[d.reg]), ew)
+        oldl = lanes(old, ew)
+        res = [new[i] if (mk >> i) & 1 else (bv(0, ew) if kz else oldl[i]) for i in range(W // ew)]
+        E.putv(st, ins, d, join(res), W, True)
+        return True
     return None
 
 
@@ -429,7 +456,73 @@ def evex_unmasked(E, st, ins):
         else:
             E.store(st, E.ea(st, ins, d), w // 8, v, ins)
         return True
+    km = re.match(r'^k(shiftl|shiftr|or|and|andn|xor|xnor|not|ortest|test|add)([bwdq])$', m)
+    if km:
+        op, w = km.group(1), {'b': 8, 'w': 16, 'd': 32, 'q': 64}[km.group(2)]
+        K = lambda x: Extract(w - 1, 0, st.k[x.reg])
+        if op in ('shiftl', 'shiftr'):
+            a, n = K(o[1]), o[2].imm & 0xff
+            r = bv(0, w) if n >= w else ((a << n) if op == 'shiftl' else LShR(a, n))
+        elif op == 'not':
+            r = ~K(o[1])
+        elif op in ('ortest', 'test'):
+            a, b = K(o[0]), K(o[1])
+            if op == 'ortest':
+                t = a | b
+                st.flags = ('expl', {'zf': simp(t == 0), 'cf': simp(t == bv(-1, w)), 'sf': BoolVal(False), 'of': BoolVal(False), 'pf': BoolVal(False)}, None, bv(0, 8), 8, None)
+            else:
+                st.flags = ('expl', {'zf': simp((a & b) == 0), 'cf': simp((~a & b) == 0), 'sf': BoolVal(False), 'of': BoolVal(False), 'pf': BoolVal(False)}, None, bv(0, 8), 8, None)
+            return True
+        else:
+            a, b = K(o[1]), K(o[2])
+            r = {'or': a | b, 'and': a & b, 'andn': ~a & b, 'xor': a ^ b, 'xnor': ~(a ^ b), 'add': a + b}[op]
+        st.k[o[0].reg] = simp(ZeroExt(64 - w, r)) if w < 64 else simp(r)
+        return True
     W = max([x.width for x in o if x.kind == 'vec'] or [128])
+    cm = re.match(r'^vpcmp(eq|neq|lt|le|nlt|nle|gt)?(u?)([bwdq])$', m)
+    if cm and o[0].kind == 'k':
+        pred, uns, ew = cm.group(1), cm.group(2) == 'u', {'b': 8, 'w': 16, 'd': 32, 'q': 64}[cm.group(3)]
+        if pred is None:
+            pred = ['eq', 'lt', 'le', 'false', 'neq', 'nlt', 'nle', 'true'][o[3].imm & 7]
+        a, b = E.getv(st, ins, o[1], W), E.getv(st, ins, o[2], W)
+        bits = []
+        for x, y in zip(lanes(a, ew), lanes(b, ew)):
+            lt = ULT(x, y) if uns else (x < y)
+            le = ULE(x, y) if uns else (x <= y)
+            c = {'eq': x == y, 'neq': x != y, 'lt': lt, 'le': le, 'nlt': Not(lt), 'nle': Not(le), 'gt': Not(le), 'false': BoolVal(False), 'true': BoolVal(True)}[pred]
+            bits.append(If(c, bv(1, 1), bv(0, 1)))
+        r = join(bits)
+        st.k[o[0].reg] = simp(ZeroExt(64 - r.size(), r))
+        return True
+    if m in ('vpermi2q', 'vpermi2d', 'vpermt2q', 'vpermt2d', 'vpermi2w', 'vpermt2w', 'vpermi2b', 'vpermt2b'):
+        ew = {'b': 8, 'w': 16, 'd': 32, 'q': 64}[m[-1]]
+        n = W // ew
+        d0, s1, s2 = E.getv(st, ins, o[0], W), E.getv(st, ins, o[1], W), E.getv(st, ins, o[2], W)
+        if m.startswith('vpermi2'):
+            idx, ta, tb = d0, s1, s2
+        else:
+            idx, ta, tb = s1, d0, s2
+        tab = lanes(ta, ew) + lanes(tb, ew)
+        res = []
+        for ix in lanes(simp(idx), ew):
+            c = conc(simp(ix))
+            if c is None:
+                raise Unsupported('%s with a symbolic index' % m)
+            res.append(tab[c & (2 * n - 1)])
+        E.putv(st, ins, o[0], join(res), W, True)
+        return True
+    if m in ('vpermq', 'vpermd', 'vpermw', 'vpermb') and len(o) == 3 and o[1].kind == 'vec' and o[2].kind != 'imm':
+        ew = {'b': 8, 'w': 16, 'd': 32, 'q': 64}[m[-1]]
+        n = W // ew
+        idx, tab = E.getv(st, ins, o[1], W), lanes(E.getv(st, ins, o[2], W), ew)
+        res = []
+        for ix in lanes(simp(idx), ew):
+            c = conc(simp(ix))
+            if c is None:
+                raise Unsupported('%s with a symbolic index' % m)
+            res.append(tab[c & (n - 1)])
+        E.putv(st, ins, o[0], join(res), W, True)
+        return True
     if m in ('vshufi64x2', 'vshuff64x2', 'vshufi32x4', 'vshuff32x4'):
         a, b, imm = E.getv(st, ins, o[1], W), E.getv(st, ins, o[2], W), o[3].imm
         la, lb = lanes(a, 128), lanes(b, 128)
@@ -467,6 +560,9 @@ def evex_unmasked(E, st, ins):
         return True
     if m in ('vpternlogq', 'vpternlogd'):
         c_, a, b, imm = E.getv(st, ins, o[0], W), E.getv(st, ins, o[1], W), E.getv(st, ins, o[2], W), o[3].imm
+        if imm == 0x96:
+            E.putv(st, ins, o[0], c_ ^ a ^ b, W, True)      # three-way XOR (the common use in the AES/GHASH kernels)
+            return True
         res = bv(0, W)
         for idx in range(8):
             if (imm >> idx) & 1:
